@@ -14,8 +14,8 @@ DISTINCT_RULE = (
     "orders are created through Trade.create_order in tight loops, from 16 threads, under the real and the simulated clock, for strategy names (empty, unicode, "
     "500 chars) and every separator; every reference is replayed through process_current_orders of a second framework instance; distinct = distinct references created"
 )
-RULES = ["unique", "charset", "separator", "roundtrip"]
-MINIMA = {"quick": {"rule_unique": 150000, "rule_separator": 500, "rule_roundtrip": 1000}, "thorough": {"rule_unique": 3000000}}
+RULES = ["unique", "charset", "separator", "roundtrip", "config_separator"]
+MINIMA = {"quick": {"rule_unique": 150000, "rule_separator": 500, "rule_config_separator": 500, "rule_roundtrip": 1000}, "thorough": {"rule_unique": 3000000}}
 ASSUMPTIONS = ["the exchange accepts upper/lower case letters, digits and - . _ + * : ; ~ (written down here, not read from flumine)", "distinct strategy names (same-name strategies are warned against and share a hash by construction)"]
 VALID = set(string.ascii_letters) | set(string.digits) | set("-._+*:;~")
 NAMES = ["", "a", "Strategy", "ünïcødé-стратегия-戦略", "x" * 500, "with space", "UPPER_lower-123", "\n\t", "S0", "S1"]
@@ -29,6 +29,7 @@ def plan(tier, seed):
     for i in range(3 if not big else 20):
         cases.append({"kind": "threads", "threads": 16, "n": 2500 if not big else 5000, "i": i})
     cases.append({"kind": "separator"})
+    cases.append({"kind": "config_sep"})
     for i in range(6 if not big else 30):
         cases.append({"kind": "roundtrip", "seed": seed, "i": i})
     return cases
@@ -131,9 +132,64 @@ def run(case):
                 if o.sep != c:
                     out.v("separator-changed-by-rejected-set", {}, sep=c)
         out.d("separator")
+    elif kind == "config_sep":
+        _config_sep(out)
     elif kind == "roundtrip":
         _roundtrip(case, out)
     return out.result(sample={"case": case} if case.get("i", 0) == 0 else None)
+
+
+def _config_sep(out):
+    """The application changes config.order_sep at run time and creates orders without naming a separator: whatever the framework does
+    with that setting (ignore it, honour it, refuse it), no order may come out with a reference the exchange would refuse or that does
+    not split back."""
+    from flumine import config as fconfig
+    from flumine.order.trade import Trade
+    from flumine.order.order import BetfairOrder, BetdaqOrder
+    from flumine.order.ordertype import LimitOrder, BetdaqLimitOrder
+    from .. import live
+
+    st = _strategy("cfg")
+    cands = [chr(c) for c in range(0x20, 0x100)] + ["é", "→", "", "--", "ab", "  ", "\n", None]
+    saved = fconfig.order_sep
+    made = []
+    try:
+        for c in cands:
+            fconfig.order_sep = c
+            makers = (
+                lambda: Trade("1.23456", 12, 0, st).create_order("BACK", LimitOrder(2.0, 2.0)),
+                lambda: BetfairOrder(Trade("1.23456", 12, 0, st), "LAY", LimitOrder(2.0, 2.0)),
+                lambda: Trade("1.23456", 12, 0, st).create_betdaq_order("BACK", BetdaqLimitOrder(2.0, 2.0, 1, 0, 0)),
+                lambda: BetdaqOrder(Trade("1.23456", 12, 0, st), "LAY", BetdaqLimitOrder(2.0, 2.0, 1, 0, 0)),
+            )
+            for k, mk in enumerate(makers):
+                out.rule("config_separator")
+                try:
+                    o = mk()
+                except ValueError:
+                    continue  # refused when set: allowed
+                ref = o.customer_order_ref
+                if len(ref) > 32 or not set(ref) <= VALID:
+                    out.v("reference-invalid-under-runtime-config-separator", {"maker": k}, ref=ref, config_sep=repr(c))
+                elif k < 2:
+                    made.append(o)
+    finally:
+        fconfig.order_sep = saved
+    # every reference made above comes back from the exchange and is resolved by a second instance
+    b = _strategy("cfg")
+    wb = live.LiveWorld([b])
+    bets = {}
+    for o in made:
+        bets[o.id] = wb.exchange._new_bet("1.23456", o.create_place_instruction(), None)["betId"]
+    wb.snapshot()
+    m = wb.market("1.23456")
+    for o in made:
+        out.rule("roundtrip")
+        got = m.blotter._orders.get(o.id) if m is not None else None
+        if got is None or got.trade.strategy is not b or got.bet_id != bets[o.id]:
+            out.v("reference-not-resolved", {"runtime_config": True}, ref=o.customer_order_ref)
+    wb.close()
+    out.d("config_sep:%d" % len(made))
 
 
 def _roundtrip(case, out):
